@@ -217,8 +217,10 @@ fn check_case(ctx: &mut Ctx, defs: &[String], victim: usize, edits: &[Edit], sep
     let want_toks = intended(&defs[victim], edits).unwrap_or_default();
     let got_toks: Vec<String> = lex(&new_victim).into_iter().filter(|t| !t.trivia).map(|t| t.text).collect();
     if want_toks != got_toks {
-        ctx.excluded("damaged body does not re-lex to the intended tokens");
-        return Ok(false);
+        // Edits are printed space-separated, so lexemes cannot merge; a difference here means
+        // the lexer splits a lexeme differently than the alphabet intends.  It is only counted:
+        // whether the other definitions survive is still what is checked below.
+        ctx.class("damaged body re-lexes differently than intended");
     }
     ctx.eval();
     let mut damaged_defs = defs.to_vec();
